@@ -349,12 +349,12 @@ def run(chk, replay):
         scenarios += r.emitted
     if not scenarios:
         raise core.MachineryError("TLC emitted no histories")
-    cap = 700 if chk.tier == "quick" else 6000
+    cap = 700 if chk.tier == "quick" else 3000
     chosen = util.select(scenarios, cap, chk.rng)
     chk.exhaustive = len(chosen) == len(scenarios)
     for sc in chosen:
         cfgseed = chk.rng.randrange(1 << 30)
-        v = run_history(chk, sc, cfgseed, nlev, consumers=(len(chk.sigs) % 5 == 0 or chk.tier == "thorough"))
+        v = run_history(chk, sc, cfgseed, nlev, consumers=(len(chk.sigs) % (5 if chk.tier == "quick" else 2) == 0))
         sigs = util.sig_str(sc["sig"])
         triv = len(sc["hist"]) == 1 and sc["hist"][0]["op"] == "colander" and sc["hist"][0]["vars"] == ["all"]
         chk.executed(sigs, not triv, sample=sc["hist"])
